@@ -123,6 +123,8 @@ def bv_src(case):
             return head + "    r = False\n    return r\n"
         if shape == "bool":
             return head + "    r = False\n    r = r ^ a\n    return r\n"
+        if shape not in ("qint", "tuple", "qlist"):
+            raise ValueError("a[i] is not the i-th search bit for this shape")
         return head + f"    r = False\n    for i in {idx}:\n        r = r ^ a[i]\n    return r\n"
     if form == "parity-temps":
         # the same parity written with local temporaries (they stay separate definitions under the fast optimizer)
